@@ -209,6 +209,24 @@ func TestC05_DeepRelay(t *testing.T) {
 			}
 			c05.one(t, obs.Hex(b))
 			c05.one(t, obs.Hex(b[:len(b)-1]))
+			// the hop-count field is a field like any other: its value decides nothing about acceptance
+			c05.one(t, obs.Hex(deepRelayHops(d, inner, d%2 == 1, 1+d%4)))
+		}
+	}
+	// relay-message options side by side (breadth) and mixed with depth: 1..120 siblings under one relay header,
+	// alone and followed by a chain — how many there are in total decides nothing either
+	inner := deepInners()[0]
+	for n := 1; n <= 120; n++ {
+		hdr := make([]byte, 34)
+		hdr[0] = 12
+		b := append([]byte{}, hdr...)
+		for k := 0; k < n; k++ {
+			b = append(append(b, 0, 9, 0, byte(len(inner))), inner...)
+		}
+		c05.one(t, obs.Hex(b))
+		if n%5 == 0 {
+			ch := deepRelay(n/3+1, inner, false)
+			c05.one(t, obs.Hex(append(append(append([]byte{}, b...), 0, 9, byte(len(ch)>>8), byte(len(ch))), ch...)))
 		}
 	}
 }
